@@ -63,7 +63,14 @@ where
                 // Loop until we are done or that some of the polls return `Pending`
                 loop {
                     trace!("polling us");
-                    let new_buf = ready!(Pin::new(&mut *this.us).poll_fill_buf(cx))?;
+                    let Poll::Ready(res) = Pin::new(&mut *this.us).poll_fill_buf(cx) else {
+                        // Nothing more to relay for now: make sure what we already wrote
+                        // reaches the other side instead of sitting in its write buffer.
+                        ready!(this.other.as_mut().poll_flush(cx))?;
+                        // Fine to return `Pending` here because `poll_fill_buf` has our waker
+                        return Poll::Pending;
+                    };
+                    let new_buf = res?;
                     if new_buf.is_empty() {
                         // Our side EOF
                         *this.read_state = ReadState::ShuttingDown(read_amt);
